@@ -59,7 +59,7 @@ pub fn hash_ref(inp: &str, outp: &str) {
                 }
                 json!({ "ref": o })
             }
-            ("native", _) => {
+            ("native", "hash_memory") => {
                 let elems = json_to_felts(&x["elems"]);
                 let mut state = [ZERO; 12];
                 state[0] = Felt::new(x["recipe"]["cap0"].as_u64().unwrap_or(0));
@@ -70,6 +70,17 @@ pub fn hash_ref(inp: &str, outp: &str) {
                 }
                 let native: [Felt; 4] = hasher::hash_elements(&elems).into();
                 json!({"recipe": felts_to_json(&state[4..8]), "hash_elements": felts_to_json(&native)})
+            }
+            ("native", "hash_memory_even") => {
+                let init = json_to_felts(&x["recipe"]["init"]);
+                let mut state = [ZERO; 12];
+                state.copy_from_slice(&init[..12]);
+                for b in x["recipe"]["blocks"].as_array().unwrap() {
+                    let bl = json_to_felts(b);
+                    state[4..12].copy_from_slice(&bl[..8]);
+                    hasher::apply_permutation(&mut state);
+                }
+                json!({"state": felts_to_json(&state)})
             }
             _ => json!({}),
         };
